@@ -460,7 +460,7 @@ def _wasm_io(ck, p):
         cs = [t for _, _, t in calls(p, f)]
         names = sorted({t["f"].get("inst") or "" for t in cs})
         has_from = any(n == "serde_json::de::from_str" for n in names)
-        has_append = any(n.endswith("IgnoredLints::append") or n.endswith("ignored_lints::{impl#0}::append") for n in names)
+        has_append = any(n.endswith("IgnoredLints::append") or norm(n).endswith("ignored_lints::{impl}::append") for n in names)
         ck.decide(rule, "wasm:import_ignored_lints", has_from and has_append, f.span, "from_str=%s, append(union)=%s" % (has_from, has_append))
 
 
